@@ -264,6 +264,10 @@ inline bool mutate_tree(std::vector<Node> &roots, Rng &r, size_t hardMax, const 
         // every huge input that reaches new code stays in the corpus and slows all later executions down
         static const size_t sizes[] = { 0, 1, 2, 3, 8, 20, 21, 64, 127, 128, 129, 255, 256, 257, 1000, 32767, 32768, 65534, 65535, 65536, 65537, 65540, 70000 };
         size_t want = sizes[r.below(r.below(6) == 0 ? sizeof sizes / sizeof sizes[0] : 15)];
+        if (nd.tag == 0x06 && r.below(2)) { // OBJECT IDENTIFIER: lengths around the 8-bit wrap (2-byte length form) and the OID buffer limits
+            static const size_t oidSizes[] = { 30, 31, 32, 33, 127, 128, 255, 256, 257, 270, 286, 287, 300, 511, 512 };
+            want = oidSizes[r.below(sizeof oidSizes / sizeof oidSizes[0])];
+        }
         if (want + total + 16 > hardMax) want = r.below(maxOut > total + 32 ? maxOut - total - 32 : 1);
         if (nd.parsedKids && !nd.kids.empty()) {
             Node k = nd.kids[r.below(nd.kids.size())]; Bytes kb; ser(k, kb);
